@@ -398,6 +398,8 @@ def wl_c08(tier, seed, shard, nshards):
                 yield {'prog': G.OPN('cat', G.OPN('grp', x, ci=True), G.L('z')), 'form': f, 'w': 'W8f'}
                 yield {'prog': G.OPN('plus', G.OPN('cap', x)), 'form': f, 'w': 'W8f'}
     yield from take(itertools.chain(det(), renames(), refs(), foreign(), (it for it in G.deep_programs() if it['prog']['o'] in ('cap', 'grp'))), shard, nshards)
+    # references wrapped in Group / Capture together with the capture they point at (round 8)
+    yield from take((it for it in backref_programs() if any(k in json.dumps(it['prog']) for k in ('"grp"', '"o": "cap", "x": [{"o": "bref"'))), shard, nshards)
     r = shard_rnd(seed, shard, 8)
     n = (5000 if tier == 'quick' else 50000) // nshards
     for _ in range(n):
